@@ -842,3 +842,68 @@ mut('c10-flags-elif-chain', ['C10', 'C03'], MS,
 mut('ok-c03-flags-if-chain', ['C10', 'C03'], MS,
     [("    m.expectReply = not (hval[2] & 0x1)\n    m.autoStart = not (hval[2] & 0x2)\n",
       "    m.expectReply = True\n    m.autoStart = True\n    if hval[2] & 0x2:\n        m.autoStart = False\n    if hval[2] & 0x1:\n        m.expectReply = False\n")], kind='benign')
+
+# benign variants, batch 3 (bus side) ---------------------------------------------
+mut('ok-c13-release-index', ['C13'], BU,
+    [("        was_owner = queue[0] is caller\n", "        was_owner = queue.index(caller) == 0\n")], kind='benign')
+mut('ok-c13-replace-assign', ['C13'], BU,
+    [("                    del queue[0]\n                    queue.insert(0, caller)\n", "                    queue[0] = caller\n")], kind='benign')
+mut('ok-c14-unique-name-concat', ['C14'], BU,
+    [("        proto.uniqueName = ':1.%d' % (self.next_id,)\n", "        proto.uniqueName = ':1.' + str(self.next_id)\n")], kind='benign')
+mut('ok-c14-disconnect-pop', ['C14', 'C13'], BU,
+    [("        if proto.uniqueName:\n            del self.clients[proto.uniqueName]\n", "        self.clients.pop(proto.uniqueName, None)\n")], kind='benign')
+mut('ok-c14-dispatch-table', ['C14'], BU,
+    [("            if mt == 1:\n                self.methodCallReceived(p, msg)\n            elif mt == 2:\n                self.methodReturnReceived(p, msg)\n            elif mt == 3:\n                self.errorReceived(p, msg)\n            elif mt == 4:\n                self.signalReceived(p, msg)\n",
+      "            handler = {1: self.methodCallReceived,\n                       2: self.methodReturnReceived,\n                       3: self.errorReceived,\n                       4: self.signalReceived}.get(mt)\n            if handler is not None:\n                handler(p, msg)\n")], kind='benign')
+mut('ok-c14-disconnect-rules-flat', ['C14', 'C12'], BU,
+    [("        for rule_ids in proto.matchRules.values():\n            for rule_id in rule_ids:\n                self.router.delMatch(rule_id)\n",
+      "        for rule_id in [i for ids in proto.matchRules.values() for i in ids]:\n            self.router.delMatch(rule_id)\n")], kind='benign')
+mut('ok-c13-release-early-nonowner', ['C13'], BU,
+    [("        if was_owner:\n            if caller.isConnected:\n                self.sendSignal(caller, 'NameLost', 's', name)\n\n            if queue:\n                self.sendSignal(queue[0], 'NameAcquired', 's', name)\n",
+      "        if was_owner and caller.isConnected:\n            self.sendSignal(caller, 'NameLost', 's', name)\n\n        if was_owner and queue:\n            self.sendSignal(queue[0], 'NameAcquired', 's', name)\n")], kind='benign')
+
+# round-2 seeds C13-C20 as regression mutants -------------------------------------
+mut('c13-nameacquired-under-isconnected', ['C13'], BU,
+    [("            if caller.isConnected:\n                self.sendSignal(caller, 'NameLost', 's', name)\n\n            if queue:\n                self.sendSignal(queue[0], 'NameAcquired', 's', name)\n",
+      "            if caller.isConnected:\n                self.sendSignal(caller, 'NameLost', 's', name)\n\n                if queue:\n                    self.sendSignal(queue[0], 'NameAcquired', 's', name)\n")], ['C13.D3'],
+    note='round-2 seed: successor of a DISCONNECTED owner is never told')
+mut('c13-nameacquired-to-tail', ['C13'], BU,
+    [("                self.sendSignal(queue[0], 'NameAcquired', 's', name)\n", "                self.sendSignal(queue[-1], 'NameAcquired', 's', name)\n")], ['C13.D3'])
+mut('c15-xml-cache-not-invalidated', ['C15'], IF,
+    [("            m.nret = len([a for a in marshal.genCompleteTypes(m.sigOut)])\n        self.methods[m.name] = m\n        self._xml = None\n",
+      "            m.nret = len([a for a in marshal.genCompleteTypes(m.sigOut)])\n            self._xml = None\n        self.methods[m.name] = m\n")], ['C15.D5'],
+    note='round-2 seed')
+mut('c15-delproperty-keeps-cache', ['C15'], IF,
+    [("        del self.properties[name]\n        self._xml = None\n", "        del self.properties[name]\n")], ['C15.D5'])
+mut('ok-c15-invalidate-first', ['C15'], IF,
+    [("        self.signals[s.name] = s\n        self._xml = None\n", "        self._xml = None\n        self.signals[s.name] = s\n")], kind='benign')
+mut('c16-children-dedup-last-only', ['C16'], IN,
+    [("            if path and path not in matches:\n", "            if path and path not in matches[-1:]:\n")], ['C16.D4'],
+    note='round-2 seed')
+mut('c17-cache-property-first-interface', ['C17'], OB,
+    [("            if obj.interface is None:\n                for iface in self.getInterfaces():\n                    if obj.pname in iface.properties:\n                        obj.interface = iface.name\n                        break\n",
+      "            for iface in self.getInterfaces():\n                if obj.pname in iface.properties:\n                    if obj.interface is None:\n                        obj.interface = iface.name\n                    obj.iprop = iface.properties[obj.pname]\n                    break\n"),
+     ("            for iface in self.getInterfaces():\n                if obj.interface == iface.name:\n                    obj.iprop = iface.properties[obj.pname]\n                    break\n\n", "")], ['C17.D5'],
+    note='round-2 seed')
+mut('ok-c17-iprop-lookup-by-name', ['C17'], OB,
+    [("            for iface in self.getInterfaces():\n                if obj.interface == iface.name:\n                    obj.iprop = iface.properties[obj.pname]\n                    break\n",
+      "            for iface in self.getInterfaces():\n                if iface.name != obj.interface:\n                    continue\n                obj.iprop = iface.properties[obj.pname]\n                break\n")], kind='benign')
+mut('c19-dict-same-flag-last-value', ['C19'], M,
+    [("            elif not isinstance(v, vtype):\n                same = False\n", "            else:\n                same = isinstance(v, vtype)\n")], ['C19.D2'],
+    note='round-2 seed')
+mut('c19-list-same-flag-recomputed', ['C19'], M,
+    [("        for v in pobj[1:]:\n            if not isinstance(v, vtype):\n                same = False\n", "        for v in pobj[1:]:\n            same = isinstance(v, vtype)\n")], ['C19.D2'])
+mut('ok-c19-list-same-all', ['C19'], M,
+    [("        same = True\n        for v in pobj[1:]:\n            if not isinstance(v, vtype):\n                same = False\n", "        same = all(isinstance(v, vtype) for v in pobj[1:])\n")], kind='benign')
+mut('ok-c19-dict-same-and', ['C19'], M,
+    [("            elif not isinstance(v, vtype):\n                same = False\n", "            else:\n                same = same and isinstance(v, vtype)\n")], kind='benign')
+mut('c14-noncall-to-bus-forwarded', ['C14'], BU,
+    [("            elif not msg.destination == 'org.freedesktop.DBus':\n", "            elif mt == 1 and not msg.destination == 'org.freedesktop.DBus' or mt != 1:\n")], ['C14.D4'],
+    note='round-2 seed (condensed): non-call messages addressed to the bus are forwarded')
+mut('c20-declared-count-from-signature', ['C20'], MS,
+    [("                self.unix_fds = len(oobFDs)\n", "                self.unix_fds = self.signature.count('h')\n")], ['C20.D2'],
+    note='round-2 seed: descriptors inside containers are not counted')
+mut('c18-unicode-word-class', ['C18'], M,
+    [("mbr_re = re.compile('[^A-Za-z0-9_]')", "mbr_re = re.compile(r'\\W')"),
+     ("invalid_obj_path_re = re.compile('[^a-zA-Z0-9_/]')", "invalid_obj_path_re = re.compile(r'[^\\w/]')")], ['C18.D1'],
+    note='round-2 seed: \\w is Unicode-aware on str patterns')
